@@ -311,7 +311,9 @@ def run(ch, idx, tier):
                     if len(pops) < 2:
                         continue
                     new_names += 1
-                    code = f"tr{new_names}"
+                    # any code name is allowed, including one that contains the separator the library uses for the
+                    # per-source parameter names ("<code>_from_<source>")
+                    code = f"tr{new_names}" if new_names % 2 else f"mv_from_tr{new_names}"
                     ptype = data.pops[pops[0]]["type"]
                     same = [p for p in pops if data.pops[p]["type"] == ptype]
                     if len(same) < 2:
